@@ -4,17 +4,22 @@ import gen, polyutil as pu
 from evalutil import *
 
 ID = "C07"
-LEVEL = "other"
-MODULES = ["H3Proofs.Props.C07"]
+LEVEL = "proof"
+MODULES = ["H3Proofs.Props.C07", "H3Proofs.Props.C07Iter"]
 THEOREMS = "auto"
-TECHNIQUE = ("Lean 4 theorems about the planar predicates over exact arithmetic and the flag/size decision logic + "
-             "correspondence; the property itself (centre containment, both algorithms) is decided by a differential "
-             "run against an independent point-in-polygon oracle over a covering set of candidate cells")
+TECHNIQUE = ("Lean 4 theorems about a model of the hierarchical algorithm's traversal (nextCell, iterStepPolygonCompact, "
+             "expansion): iterator loop = recursive descent over the cell tree; relative to the two bounding-box pruning "
+             "assumptions the result is exactly the valid cells of the resolution accepted by the mode's predicate, each "
+             "once, in index order (C07Iter.polyfill_exact) + model/code correspondence of the traversal (run in the C15 "
+             "check); the geometric half (centre inside the polygon, both algorithms, size bounds) is decided by a "
+             "differential run against an independent point-in-polygon oracle over a covering set of candidate cells")
 ASSUMPTIONS = ["cell centres (cellToLatLng) and the bounding-box pruning of the hierarchical algorithm are floating "
                "point geometry: not proved; candidate cells come from gridDisk around the polygon (proved/checked in C05)",
                "cells whose centre is within 1e-9 rad of the polygon boundary are ambiguous and skipped by the oracle"]
-NOT_PROVED = ["polygonToCells / polygonToCellsExperimental = {cells with centre inside} (geometry); legacy flood-fill completeness"]
-EXPLANATION = ("generated well-formed polygons (convex, concave, needle, tiny, holes, antimeridian, near pentagons) x "
+NOT_PROVED = ["that the library's floating-point predicates mean 'centre inside the polygon' and prune soundly (geometry); "
+              "the legacy algorithm (edge tracing + flood fill) is not modelled: soundness/completeness by the differential run only",
+              "maxPolygonToCellsSize / maxPolygonToCellsSizeExperimental >= number of cells"]
+EXPLANATION = ("traversal exactness theorem relative to an abstract geometry (hierarchical algorithm); generated well-formed polygons (convex, concave, needle, tiny, holes, antimeridian, near pentagons) x "
                "resolutions; both algorithms compared with the oracle, with each other, and with their size bounds")
 EDGE = [0.19, 0.072, 0.027, 0.0103, 0.0039, 0.00147, 0.00056, 0.00021, 8e-5, 3e-5, 1.1e-5, 4.3e-6, 1.6e-6, 6e-7, 2.3e-7, 8.8e-8]
 
